@@ -60,7 +60,9 @@ type devReq struct {
 	Updates  []string `json:"updates,omitempty"` // path=value
 	Code     string   `json:"code"`
 	// history before this request (devices with trackHist): the election id of the newest term and what was accepted in it
-	SeenEl uint64   `json:"seenEl,omitempty"`
+	// RawUpdates: the update paths as structured elements (c16Canon), independent of any textual path form
+	RawUpdates []string `json:"rawUpdates,omitempty"`
+	SeenEl     uint64   `json:"seenEl,omitempty"`
 	Seen   []string `json:"seen,omitempty"`
 }
 
@@ -126,6 +128,7 @@ func (d *simDevice) Set(ctx context.Context, r *gnmi.SetRequest) (*gnmi.SetRespo
 	}
 	for _, u := range append(append([]*gnmi.Update{}, r.Replace...), r.Update...) {
 		req.Updates = append(req.Updates, prefix+utils.StrPath(u.Path)+"="+devValueText(u.Val))
+		req.RawUpdates = append(req.RawUpdates, c16PathCanon(r.Prefix, u.Path))
 	}
 	finish := func(c codes.Code, msg string) (*gnmi.SetResponse, error) {
 		req.Code = c.String()
